@@ -144,6 +144,8 @@ class Roles:
         self.fx = fx
         self.role = {}          # (fn path, local) -> role
         self.fns = [f for f in ro.fns_in_scope(fx, crates=("libxcp", "libfs"))]
+        self.frole = {}            # (struct adt, field name) -> role learned from its construction sites
+        self.structs = set(p_ for p_, a_ in fx.adts.items() if a_.get("kind") == "struct")
         self.closure_parent = {}   # closure path -> (parent fn, operands)
         for f in self.fns:
             for b in f.blocks:
@@ -179,6 +181,8 @@ class Roles:
                 adt = e.get("adt")
                 if (adt, e.get("n")) in FIELD_ROLES:
                     r = FIELD_ROLES[(adt, e.get("n"))]
+                elif (adt, e.get("n")) in self.frole:
+                    r = self.frole[(adt, e.get("n"))]
                 elif variant is not None and (adt, variant) in VARIANT_ROLES:
                     roles = VARIANT_ROLES[(adt, variant)]
                     if e["f"] < len(roles):
@@ -221,6 +225,19 @@ class Roles:
                         elif k == "agg" and rv.get("ak") in ("tuple", "array"):
                             for o in rv["fields"]:
                                 r = join(r, self.operand_role(f, o))
+                        elif k == "agg" and rv.get("ak") == "adt" and rv.get("adt") in self.structs and \
+                                rv.get("adt") != COPYHANDLE:
+                            # a workspace struct that carries paths/descriptors (a builder, a per-run context, a
+                            # probe wrapper): each field has the role of what it is built from
+                            for i_, o in enumerate(rv["fields"]):
+                                if i_ < len(rv.get("fnames", [])):
+                                    fr = self.operand_role(f, o)
+                                    key_ = (rv["adt"], rv["fnames"][i_])
+                                    old_ = self.frole.get(key_, NONE)
+                                    new_ = join(old_, fr)
+                                    if new_ != old_:
+                                        self.frole[key_] = new_
+                                        changed = True
                         elif k == "agg" and rv.get("ak") == "adt" and rv.get("adt") in (
                                 "core::option::Option", "core::result::Result", "core::ops::control_flow::ControlFlow"):
                             if rv.get("variant") not in ("Err", "Break"):     # an error value names no file
